@@ -26,3 +26,25 @@ CHECKER_MODULES = ["Spdc.Real.GridLemmas"]
 def families(tier, seed):
     n = 600 if tier == "quick" else 20000
     return [("grid", seed, n, [])]
+
+
+# ------------------------------------------------------------------------------------------------------------------------------
+# COMPOSED model, part 3 — grid level (branch compose; Model/ComposeGrid.lean, notes/compose.md "Part 3") — purely additive block.
+# The cmpg_* K lines carry ONLY the primitive setup, the range (kind F/W/SD, endpoints, step counts), the Simpson division count
+# and the delays; Spdc.Model.ComposeGrid recomputes everything (JointSpectrum::new through the composed try_as_optimum, the
+# spectra on the grid, group indices, correction factor, rates, HOM, Schmidt number) through all layers.
+import os as _os3
+import sys as _sys3
+_sys3.path.insert(0, _os3.path.dirname(_os3.path.abspath(__file__)))
+import _pmtol  # noqa: F401,E402  (tolerance kind "csum": |Δ| relative to the absolute quadrature scale printed next to the value)
+OPS = set(OPS) | {'cmpg_points', 'cmpg_freq_space', 'cmpg_jsa_range', 'cmpg_jsi_range', 'cmpg_jsi_singles_range', 'cmpg_jsi_singles_idler_range'}
+TOL = dict(TOL)
+TOL.update({'cmpg_points': ('ulp', 4), 'cmpg_freq_space': ('ulp', 4), 'cmpg_jsa_range': ('csum', 5e-14), 'cmpg_jsi_range': ('csum', 1e-13), 'cmpg_jsi_singles_range': ('rel', 1e-06), 'cmpg_jsi_singles_idler_range': ('rel', 1e-06)})
+RULE += " | family compose/c14g: the primitive-setup generator of parts 1-2 (11 crystals x 5 PM types, poled/unpoled, collinear/non-collinear, idler auto/explicit, 2/3 phase-matched) x a range around the centre frequencies (half-width 0.3-6 pump spectral widths per axis, 1/4 displaced so that part of it leaves the support; shapes 1xn, nx1, rectangles, squares, now and then an empty axis) given as FrequencySpace, WavelengthSpace or SumDiffFrequencySpace x Simpson divs from {4 (panic path of JointSpectrum::new), 5, 6, 7, 8, 10, 12, 20}: the range adapters (IntoSignalIdlerIterator points, Into<FrequencySpace> endpoints: no setup on the line), JointSpectrum::{jsa_range, jsi_range} on the range's own iterator, jsi_singles_range / jsi_singles_idler_range (explicit idler) on grids of <= 16 points"
+LEVEL_NOTE += ' COMPOSED MODEL part 3 (notes/compose.md): the cmpg_* K ops carry NO value computed by the real crate — only the primitive setup, the range specification (FrequencySpace / WavelengthSpace / SumDiffFrequencySpace endpoints and step counts), the Simpson division count and the delays; Spdc.Model.ComposeGrid evaluates JointSpectrum::new (centre values through the composed try_as_optimum), the spectra over the grid in the row-major order of the crate, group indices / get_counts_correction, the dw^2 rectangle sums, hom_time_delay, the HOM sums and the trace-form Schmidt number on top of the composed jsa/jsi/jsi_singles. The real side builds the SPDC from exactly these primitives and calls the public API. Values governed by the oscillatory z-quadrature are compared relative to the absolute quadrature scale (kind csum), singles (rayon 2-D sums, order not fixed) at rel 1e-6.'
+CHECKER_MODULES = list(globals().get("CHECKER_MODULES", [])) + [_m for _m in ["Spdc.Real.ComposeLemmas", "Spdc.Real.ComposeAutoLemmas", "Spdc.Real.ComposeGridLemmas"] if _m not in globals().get("CHECKER_MODULES", [])]
+_families_before_compose_grid = families
+
+
+def families(tier, seed):
+    return _families_before_compose_grid(tier, seed) + [("compose", seed, 200 if tier == "quick" else 3000, ["c14g"])]
